@@ -3,7 +3,7 @@ CONSTANTS
  Mans = {"m1", "m2"}
  TagOrder <- MCTagOrder
  Procs = {"p1", "p2"}
- Confs <- LayShared
+ Confs <- LayPair
  MaxOps = 1
  OpTags = {"t1", "t2"}
  OpMans = {"m1", "m2"}
